@@ -228,6 +228,8 @@ impl FeoxStore {
         expected: &Arc<Record>,
         now: u64,
     ) -> Result<bool> {
+        #[cfg(feoxdb_verif)]
+        crate::verif::yield_point("expire.before_retire");
         let retired = match self.hash_table.entry(key.to_vec()) {
             scc::hash_map::Entry::Occupied(entry) => {
                 let record = entry.get();
@@ -250,6 +252,8 @@ impl FeoxStore {
         };
 
         let record = retired;
+        #[cfg(feoxdb_verif)]
+        crate::verif::yield_point("expire.before_uncache");
         self.remove_cached(key, &record);
         if let Some(write_buffer) = self.write_buffer.as_ref() {
             write_buffer.add_write(Operation::Delete, record, 0)?;
